@@ -41,6 +41,11 @@ CHECKS={
    text='Every request of the C10 catalogue (every command, field combination, input mode, failing variants) plus success-oriented requests for every data command, all with --json placed before and after the subcommand, on 3 pre-states: a success must print exactly one JSON value (strict decoder + EOF), a failure must have stderr and at most one JSON error object on stdout, and every field of a success reply (new ids fresh and well-formed, state, claimant, claimed_at, epic, title, body, edges present/absent, plan ids/order/edges, pruned ids incl. dry-run = --yes on a copy, where/init paths) must equal what an immediately following show/list reports.',
    note='Finite catalogue over small value domains; documentation printers (quickstart, version, --help) are outside the alphabet. Server backend conformance-checked each run.',
    technique='exhaustive small-scope enumeration of requests over real commands + differential read-back'),
+
+ 'C11': dict(engine='SEQ', level='model_checking', design='3/C11',
+   text='Exhaustive enumeration of plan documents: all 1-2 task documents over title variants (distinct, duplicate, case variant, trailing space, blank, missing, NFC duplicate) x `after` multisets (<=2) over {other, own, dangling, empty, case variant, trailing-space variant}; every relation (incl. cyclic) on 3 tasks with distinct and duplicate titles (thorough: all 4096 relations on 4 tasks); body and epic-title variants; 22 structurally invalid payloads; each x 5 pre-stores (empty, rich, legacy file name, two torn tails). Oracle: accept iff the reference model accepts; on accept exactly one epic + n todo unclaimed tasks inside it with byte-equal titles/bodies, edge set = `after` relation, reply = read-back, creation order = input order, every pre-existing show byte-identical, store readable; on reject one error object and a byte-identical .ergo.',
+   note='Reference model is a literal reading of the property. Small-scope: <=3 (4) tasks.',
+   technique='exhaustive small-scope input enumeration over real commands + reference model'),
 }
 NA_REASON='check not built yet (work in progress; design in DESIGN.md)'
 m={"version":1,
